@@ -657,7 +657,7 @@ fn render_memory(m: &falcon::memory::backing::Memory) -> String {
     }
     runs.iter()
         .map(|(a, p, d)| {
-            let body = if d.len() <= 128 { d.iter().map(|b| format!("{:02x}", b)).collect::<String>() } else { format!("#{:x}", fnv(d)) };
+            let body = if d.len() <= 640 { d.iter().map(|b| format!("{:02x}", b)).collect::<String>() } else { format!("#{:x}", fnv(d)) };
             format!("{}:{}:{}:{}", a, d.len(), p, body)
         })
         .collect::<Vec<_>>()
@@ -1020,9 +1020,9 @@ fn extra_phdrs(rng: &mut Rng, o: &Obj, n: usize) -> Vec<Ph> {
         let p = match rng.below(5) {
             0 => Ph { ptype: 0x6474_e551, flags: *rng.pick(&[6u32, 7]), ..Default::default() },
             1 => {
-                // an empty PT_NOTE (readelf parses the contents of a non-empty one)
-                let (off, va, _, _) = sub(rng, false);
-                Ph { ptype: 4, flags: 4, off, vaddr: va, filesz: 0, memsz: 0, bytes: vec![] }
+                // PT_SHLIB (readelf would parse the contents of a PT_NOTE)
+                let (off, va, fs, ms) = sub(rng, false);
+                Ph { ptype: 5, flags: 4, off, vaddr: va, filesz: fs, memsz: ms, bytes: vec![] }
             }
             2 => {
                 let (off, va, fs, ms) = sub(rng, true);
@@ -1426,7 +1426,9 @@ fn generate(tier: Tier, rng: &mut Rng, emit: &mut Emit) {
                 let (class, q) = match rng.below(4) {
                     0 => {
                         o.machine = *rng.pick(&[3u16, 62, 20, 8, 183]);
-                        o.le = rng.chance(1, 2);
+                        if !o.has_dynamic() {
+                            o.le = rng.chance(1, 2); // (the dynamic tables are already encoded)
+                        }
                         ("odd/header", load_queries(&[0, 0x1000]))
                     }
                     1 => {
@@ -1678,6 +1680,20 @@ fn main() {
     if args.get(1).map(|s| s.as_str()) == Some("selftest") {
         let n = args.get(2).and_then(|s| s.parse().ok()).unwrap_or(200);
         std::process::exit(selftest(n));
+    }
+    if args.get(1).map(|s| s.as_str()) == Some("write") {
+        // c19 write DIR < request : the files of the request's objects, for inspection
+        let mut line = String::new();
+        std::io::stdin().read_line(&mut line).unwrap();
+        let mut st = St::default();
+        for item in line.trim_end().split(SEP) {
+            let t: Vec<&str> = item.split(' ').collect();
+            let _ = declare(&mut st, &t);
+        }
+        for o in &st.objs {
+            std::fs::write(PathBuf::from(&args[2]).join(&o.name), write_file(o)).unwrap();
+        }
+        return;
     }
     run_main(&generate, &answer);
     let _ = std::fs::remove_dir_all(scratch());
